@@ -157,6 +157,21 @@ pub struct TcpFlow {
     server_isn: Option<u32>,
 }
 
+/// Upper bounds on what one direction of a flow may buffer while waiting for a complete HTTP
+/// head. No parser accepts a head this large; without a bound a connection that never yields a
+/// message (binary or encrypted data after the SYN, a head that never ends) made the flow grow,
+/// and be rebuilt and re-parsed in full, with every segment until the flow expired.
+const MAX_BUFFERED_BYTES: usize = 64 * 1024;
+const MAX_BUFFERED_SEGMENTS: usize = 2048;
+
+fn over_budget(data: &[TcpData]) -> bool {
+    data.len() > MAX_BUFFERED_SEGMENTS
+        || data
+            .iter()
+            .fold(0_usize, |total, tcp_data| total.saturating_add(tcp_data.data.len()))
+            > MAX_BUFFERED_BYTES
+}
+
 /// Quick check if HTTP data is complete for parsing (supports HTTP/1.x and HTTP/2)
 fn has_complete_http_data(data: &[u8], processors: &HttpProcessors) -> bool {
     // Strategy: Don't make early decisions about protocol due to TCP fragmentation
@@ -343,6 +358,12 @@ fn process_tcp_packet(
                             Err(_e) => {}
                         }
                     }
+
+                    if !flow.client_http_parsed && over_budget(&flow.client_data) {
+                        debug!("CLIENT: no HTTP request within the buffering budget, giving up");
+                        flow.client_http_parsed = true;
+                        flow.client_data = Vec::new();
+                    }
                 } else {
                     debug!("CLIENT: HTTP already parsed, discarding additional data");
                 }
@@ -364,6 +385,12 @@ fn process_tcp_packet(
                         }
                     } else {
                         debug!("SERVER: Data not complete yet, waiting for more");
+                    }
+
+                    if !flow.server_http_parsed && over_budget(&flow.server_data) {
+                        debug!("SERVER: no HTTP response within the buffering budget, giving up");
+                        flow.server_http_parsed = true;
+                        flow.server_data = Vec::new();
                     }
                 } else {
                     debug!("SERVER: HTTP already parsed, discarding additional data");
